@@ -122,10 +122,18 @@ def helper_initcode(helper_src, evm):
     return _helper_cache[key]
 
 
+_STATIC_TY = re.compile(r"^(u?int\d+|bool|address|bytes\d+|decimal)(\[\d+\])*$")
+
+
 def layout_vars(layout):
+    """variables whose raw slots are fully determined by the source semantics: primitives and static arrays of primitives
+    (slots past the length of a DynArray/Bytes/String hold stale data; struct names are opaque here; `$.`-prefixed entries are
+    compiler-internal, e.g. the re-entrancy key, and exist only for some EVM targets)"""
     out = []
     for name, ent in sorted(layout.get("storage_layout", {}).items()):
-        if "slot" in ent and "HashMap" not in ent.get("type", "") and ent.get("n_slots", 1) <= 64:
+        if name.startswith("$") or "slot" not in ent:
+            continue
+        if _STATIC_TY.match(ent.get("type", "")) and ent.get("n_slots", 1) <= 64:
             out.append((name, ent["slot"], ent.get("n_slots", 1)))
     return out
 
@@ -133,9 +141,11 @@ def layout_vars(layout):
 class Session:
     """one contract deployed under one configuration"""
 
-    def __init__(self, src, cfg, helper_src=None):
-        self.out = compile_src(src, cfg, formats=("bytecode", "abi", "layout"))
-        self.abi = self.out["abi"]
+    def __init__(self, src, cfg, helper_src=None, abi=None):
+        # `abi` is requested only once (reference configuration): with experimental_codegen the abi output also runs the
+        # legacy generator (gas estimates), which would mix the two pipelines
+        self.out = compile_src(src, cfg, formats=("bytecode", "layout") if abi is not None else ("bytecode", "abi", "layout"))
+        self.abi = abi if abi is not None else self.out["abi"]
         self.chain = Chain(cfg.evm)
         self.helper = None
         if helper_src is not None:
@@ -186,9 +196,9 @@ class Session:
         return st, bal
 
 
-def observe_contract(src, cfg, plan_or_seed, helper_src=None, ncalls=12, rng=None):
-    """-> ('ok', (deployed?, results, final_state, plan)) ; raises on compile error"""
-    s = Session(src, cfg, helper_src)
+def observe_contract(src, cfg, plan_or_seed, helper_src=None, abi=None):
+    """-> dict(deployed, results, state) ; raises on compile error"""
+    s = Session(src, cfg, helper_src, abi)
     if s.addr is None:
         return {"deployed": False, "results": [], "state": None}
     plan = plan_or_seed
